@@ -84,6 +84,8 @@ IdleKept ==
   [][(w.idleAt # -1 /\ w'.assign = <<>> /\ ((LastIs("Restart") \/ LastIs("RestartReloadFails")) => InStore)) => w'.idleAt = w.idleAt]_vars
 IdleSet ==
   [][(w.idleAt = -1 /\ w'.assign = <<>> /\ ~LastIs("Restart") /\ ~LastIs("RestartReloadFails")) => w'.idleAt = w.clock]_vars
+\* C11 on the model: the generated file lists exactly the assigned targets (of the jobs the configuration knows)
+GenIsAssigned == w.gen = GenOf(w.assign)
 (* C14 on the model *)
 LoadOK ==
   LET rt == RuntimeInfo(w) IN
